@@ -187,6 +187,59 @@ class C03(Prop):
             ctx["coverage"]["exhaustive_small_pairs"] = st["exhaustive_small_pairs"]
             ctx["coverage"]["keys_by_label_count"] = {str(k): v for k, v in sorted(st["label_counts"].items())}
             ctx["coverage"]["keys_by_constructor"] = dict(sorted(st["ctors"].items()))
+        return self.memo_race(ctx)
+
+    # ------------------------------------------------------------------ memo race (schedule replay)
+    extra_bins = [("hcore", "c03m")]
+    extra_coq_targets = ["C03/ExecMemo.vo"]
+
+    def memo_race(self, ctx):
+        """get_hash()/clone of ONE lazily hashed key from 2-3 threads under generated schedules,
+        replayed on the real code through yield points 301-306; model = coq/C03/MemoRace.v,
+        theorem C03_get_hash_stable_under_races (every call returns the true hash, every schedule)."""
+        from . import core
+        rng = ctx["rng"].fork()
+        n = 400 if ctx["tier"] == "quick" else 6000
+        cases = []
+        for _ in range(n):
+            nt = rng.range(2, 3)
+            progs = [[rng.pick(["G", "G", "C"]) for _ in range(rng.range(1, 3))] for _ in range(nt)]
+            total = sum(1 + 4 * len(p) for p in progs)
+            style = rng.below(2)
+            sched = []
+            for _ in range(rng.range(0, total + 4)):
+                sched.append(sched[-1] if (style and sched and rng.chance(1, 2)) else rng.below(nt))
+            cases.append((progs, sched))
+        binpath = core.harness_build("hcore", "c03m")
+        lines = ["%s ; %s" % ("|".join(",".join(p) for p in progs), " ".join(map(str, sched))) for progs, sched in cases]
+        rc, outs, err = core.run_impl(binpath, lines, timeout=900)
+        if rc != 0 or len(outs) != len(cases):
+            raise core.MachineryBroken("c03m driver failed: rc=%s %s" % (rc, err[-1000:]))
+        triples, parsed = [], []
+        for i, ((progs, sched), line) in enumerate(zip(cases, outs)):
+            tr, rs, done = [x.strip() for x in line.split(";")]
+            trace = [x.split(":") for x in tr.split()]
+            res = [[t for t in p.split(",") if t] for p in rs.split("|")]
+            parsed.append(dict(progs=progs, sched=sched, trace=tr, results=rs, done=done))
+            cc = "(%s, %s)" % (core.cq_list([core.cq_list(["CGet" if x == "G" else "CCloneGet" for x in p]) for p in progs]),
+                               core.cq_list([core.cq_N(t) for t in sched]))
+            oo = "(%s, %s, %s)" % (core.cq_list(["(%s, %s)" % (core.cq_N(int(a)), core.cq_N(int(b))) for a, b in trace]),
+                                   core.cq_list([core.cq_list([core.cq_N(int(t)) for t in p]) for p in res]), core.cq_bool(done == "1"))
+            triples.append((i, cc, oo))
+        res = core.run_model("C03", triples, exec_mod="ExecMemo", shard=200, tag="memo")
+        bad_spec = [i for i in range(len(cases)) if not res[i][1]]
+        disagree = [i for i in range(len(cases)) if not res[i][0]]
+        races = sum(1 for p in parsed if p["trace"].count(":303") >= 2 or (":303" in p["trace"] and ":306" in p["trace"]))
+        ctx["coverage"]["memo_race_schedules"] = len(cases)
+        ctx["coverage"]["memo_race_schedules_with_racing_first_use"] = races
+        ctx["coverage"]["memo_race_sample"] = parsed[0]
+        if bad_spec:
+            return [("memo-spec", "a get_hash() call on a shared lazily hashed key returned a value other than the key's hash under this schedule",
+                     dict(memo_case=parsed[bad_spec[0]], failing=len(bad_spec)))]
+        if disagree:
+            return [("memo-corr", "schedule replay of Key::get_hash/Clone disagrees with coq/C03/MemoRace.v (theorem C03_get_hash_stable_under_races no longer applies); every returned hash was still correct",
+                     dict(memo_case=parsed[disagree[0]], disagreeing=len(disagree), no_failing_input=True,
+                          broken="correspondence C03/ExecMemo.v run_case vs harness c03m"))]
         return []
 
     # ------------------------------------------------------------------ implementation side
